@@ -58,6 +58,19 @@ CHECKS = {
         TRUSTED + "; identity-encoding tomograms and the probe alignment model of harness/loaders.py",
         "DESIGN.md 4/C03",
     ),
+    "C02": (
+        "model_checking",
+        "spec/Sampling.tla states the sampling rule sub[k] = tomo(p/scale + R(k-(shape-1)/2)) in exact doubled-integer "
+        "arithmetic together with the loader's crop-window and slice/pad arithmetic; TLC checks the window lemmas "
+        "(window covers every sample the interpolant reads; empty intersection raises; the historical defect differs only "
+        "for abutting windows) for every position/box/order on one axis, the block law and the inscribed-ball law on all "
+        "3-D cases, and emits the exact source of every voxel for each case; every case is loaded through the real loader "
+        "from an identity-encoding tomogram (all 24 orientations, odd/even/non-cubic boxes, every face/edge/corner "
+        "straddle, orders 0/1/3, corner_safe, numpy/dask, four entry points) and compared voxel by voxel.",
+        "TLA+ spec Sampling.tla/SamplingMC.tla model-checked by TLC; emitted per-voxel expectations replayed against the real loader",
+        TRUSTED + "; off-grid values for order 0/3 are only required to be finite",
+        "DESIGN.md 4/C02",
+    ),
 }
 
 REASON_TODO = "check not built yet in this round (planned: see DESIGN.md section 4)"
